@@ -230,7 +230,7 @@ func authStates(ctx *engine.Ctx) {
 }
 
 type inputCase struct {
-	Kind   string `json:"kind"` // position | flip | trunc | repeat | same-salt | foreign
+	Kind   string `json:"kind"` // position | flip | trunc | repeat | same-salt | many | foreign
 	Size   int    `json:"size"`
 	Pos    int    `json:"pos"`
 	Cipher int    `json:"cipher"`
@@ -297,6 +297,19 @@ func runInputCase(ctx *engine.Ctx, ic inputCase) {
 				break
 			}
 		}
+	case "many":
+		// a long run of fresh openings of one key with a long replay history: every one is new
+		// and authenticates (the history's checksum carries the whole salt)
+		cache := service.NewReplayCache(5000)
+		auth = service.NewShadowsocksStreamAuthenticator(cl, &cache, nil, nil)
+		k := keys[ic.Pos]
+		for r := 0; r < ic.N; r++ {
+			id, ok, _, st := authOnce(auth, k, uint64(100000+ic.Pos*10000+r), from)
+			if !ok || id != k.ID {
+				fail("configured-key-rejected", fmt.Sprintf("replay history 5000: fresh opening number %d of key %s gave id=%q status=%q", r+1, k.ID, id, st))
+				break
+			}
+		}
 	case "same-salt":
 		// two different keys (same cipher) whose clients happen to pick the same salt, replay history
 		// on: both openings are new, both authenticate (in either order)
@@ -351,6 +364,7 @@ func authInputs(ctx *engine.Ctx) {
 		for _, n := range []int{1, 10, 1000} {
 			cases = append(cases, inputCase{Kind: "same-salt", Size: 12, Pos: pos, N: n})
 		}
+		cases = append(cases, inputCase{Kind: "many", Size: 5, Pos: pos, N: 1500})
 	}
 	for c := 0; c < 4; c++ {
 		for s := 0; s < 7; s++ {
